@@ -299,7 +299,9 @@ class Ctx:
         for h in self.known_hits:
             print(f"KNOWN-FINDING: property={self.pid} {h['what']}")
         rc = 0
-        for v in self.violations:
+        if len(self.violations) > 12:
+            print(f"[{self.pid}] {len(self.violations)} violating sites; reporting the first 12")
+        for v in self.violations[:12]:
             d = REPLAYS / self.pid
             d.mkdir(parents=True, exist_ok=True)
             body = {"property": self.pid, "site": v["key"], "what": v["what"], **v["replay"]}
